@@ -4,14 +4,27 @@ from . import common as C
 PID = "C18"
 PARALLEL = True
 RULE = ("seeded operation sequences up to length 12 over {bind tcp 127.0.0.1:0 / [::1]:0 / localhost:0 / ipc path, bind to an endpoint already bound, "
-        "bind of malformed text, unbind bound, unbind unknown, raw client connects in and handshakes, message exchanged on an earlier connection, plain "
+        "bind of malformed text, the same port number on another local address, unbind bound, unbind unknown (also: never-bound host with a bound port number), raw client connects in and handshakes, message exchanged on an earlier connection, plain "
         "connect probe of every endpoint ever bound} on real sockets over the real OS; the OS answers are recorded and replayed into the extracted "
         "bind-table model (oracle replay); distinct = distinct sequence; non-trivial = at least one unbind after >= 2 binds")
 TYPES = ["PULL", "REP", "ROUTER", "DEALER", "XPUB", "SUB"]   # receiving types: a message identifies the connection it came over
 
 
+FIXED = [
+    "bind tcp4 / bindsame 0 127.0.0.2 / unbind 1 / unbind 1 / binds / probe 0 / probe 1 / conn 0 / xchg 0",
+    "bind tcp4 / unbindalias 0 127.0.0.2 / binds / probe 0 / conn 0 / xchg 0",
+    "bind tcp4 / conn 0 / unbindalias 0 [::1] / xchg 0 / probe 0 / unbind 0 / binds / probe 0",
+    "bind tcp4 / bindsame 0 [::1] / unbindalias 0 127.0.0.2 / unbind 0 / unbind 0 / binds / probe 0 / probe 1 / conn 1 / xchg 0",
+    "bind tcp6 / unbindalias 0 127.0.0.1 / binds / probe 0 / conn 0 / xchg 0",
+    "bind tcp4 / bind tcp4 / unbindalias 0 127.0.0.2 / unbindalias 1 127.0.0.2 / unbindx / binds / probe 0 / probe 1",
+]
+
+
 def cases(tier, rng):
     out = []
+    for i, f in enumerate(FIXED):
+        for t in (TYPES if tier == "thorough" else [TYPES[i % len(TYPES)], TYPES[(i + 3) % len(TYPES)]]):
+            out.append("a%d%s rt %s / %s" % (i, t, t, f))
     for k in range(40 if tier == "quick" else 400):
         t = rng.choice(TYPES)
         ops = []
@@ -19,10 +32,28 @@ def cases(tier, rng):
         bound = []          # indices currently believed bound
         conns = []          # (conn index, bind index)
         nc = 0
+        kinds = {}
+        aliased = set()
         for _ in range(rng.randint(4, 12)):
             r = rng.random()
+            tcpb = [b for b in bound if kinds.get(b) in ("tcp4", "tcp6")]
+            if r < 0.12 and tcpb:
+                # same port number on another local address: an independent endpoint
+                b = rng.choice(tcpb)
+                h = rng.choice(["127.0.0.2", "[::1]"] if kinds[b] == "tcp4" else ["127.0.0.1", "127.0.0.2"])
+                if (b, h) not in aliased and rng.random() < 0.5:
+                    aliased.add((b, h))
+                    ops.append("bindsame %d %s" % (b, h))
+                    kinds[nb] = "alias"
+                    bound.append(nb)
+                    nb += 1
+                elif (b, h) not in aliased:
+                    ops.append("unbindalias %d %s" % (b, h))
+                continue
             if r < 0.3 or nb == 0:
-                ops.append("bind " + rng.choice(["tcp4", "tcp6", "local", "ipc", "tcp4"]))
+                kind = rng.choice(["tcp4", "tcp6", "local", "ipc", "tcp4"])
+                ops.append("bind " + kind)
+                kinds[nb] = kind
                 bound.append(nb)
                 nb += 1
             elif r < 0.38 and bound:
@@ -63,7 +94,7 @@ def replay(line, obs):
     i = 0
     alive = {}
     for op in ops:
-        if op[0] in ("bind", "binddup", "bindbad"):
+        if op[0] in ("bind", "binddup", "bindbad", "bindsame"):
             tk = toks[i]
             i += 1
             if tk.startswith("b#"):
@@ -76,7 +107,7 @@ def replay(line, obs):
         elif op[0] == "unbind":
             mops.append("u%s" % op[1])
             i += 1
-        elif op[0] == "unbindx":
+        elif op[0] in ("unbindx", "unbindalias"):
             mops.append("ux")
             i += 1
         elif op[0] in ("conn", "xchg", "binds", "probe"):
@@ -89,7 +120,7 @@ def compare_filter(line):
 
 
 def judge(line, obs, orc):
-    if obs is None or obs.startswith(("panic", "abort", "hang")) or "PANICS" in obs:
+    if obs is None or obs.startswith(("panic", "abort", "hang")) or "PANICS" in obs or "u=hang" in obs or "close=hang" in obs:
         return "implementation " + str(obs)[:80]
     ops = [p.split() for p in line.split(" / ")[1:]]
     toks = obs.split()
@@ -107,7 +138,7 @@ def judge(line, obs, orc):
     conn_bind = {}
     nc = 0
     for op, tk in zip(ops, toks):
-        if op[0] in ("bind", "binddup", "bindbad"):
+        if op[0] in ("bind", "binddup", "bindbad", "bindsame"):
             want = mres[mi]
             mi += 1
             if tk.startswith("b#"):
@@ -115,11 +146,11 @@ def judge(line, obs, orc):
                     return "bind returned an endpoint that is not concrete / not re-parsable: " + tk
                 cur.add(nb)
                 nb += 1
-            elif op[0] == "bind":
-                return "bind to a free wildcard endpoint failed: " + tk
+            elif op[0] in ("bind", "bindsame"):
+                return "bind to a free endpoint failed: " + tk
             elif op[0] == "binddup" and not tk.startswith("b=err:Network"):
                 return "binding an endpoint that is already bound: " + tk
-        elif op[0] in ("unbind", "unbindx"):
+        elif op[0] in ("unbind", "unbindx", "unbindalias"):
             want = mres[mi]
             mi += 1
             got = "unbound" if tk == "u=ok" else "nosuch" if tk == "u=err:NoSuchBind" else tk
